@@ -3,6 +3,7 @@ package main
 // Assumed contracts of library functions (each use is listed in the evidence).
 
 import (
+	"math/big"
 	"fmt"
 	"go/types"
 
@@ -176,5 +177,26 @@ func init() {
 				slLen(s).S, Select(slArr(s), q).S, v.S, Select(slArr(s), q).S), Sort: SBool}), "slices.Contains false: no element equals the value")
 		}
 		return []Val{{T: r}}
+	}
+}
+
+func init() {
+	// strings.ToLower / strconv.ParseUint: uninterpreted functions of the string (deterministic, no effect)
+	externals["strings.ToLower"] = func(f *Frame, ns *nodeState, x *ssa.Call, fn *ssa.Function, args []Val) []Val {
+		f.ex.vc.DeclareFun("str_toLower", []*Sort{SStr}, SStr)
+		return []Val{{T: App(SStr, "str_toLower", args[0].T)}}
+	}
+	externals["strconv.ParseUint"] = func(f *Frame, ns *nodeState, x *ssa.Call, fn *ssa.Function, args []Val) []Val {
+		vc := f.ex.vc
+		vc.DeclareFun("str_parseUint", []*Sort{SStr}, SInt)
+		vc.DeclareFun("str_parseUintOK", []*Sort{SStr}, SBool)
+		v := App(SInt, "str_parseUint", args[0].T)
+		ok := App(SBool, "str_parseUintOK", args[0].T)
+		vc.Assume(And(leT(IntLit64(0, SInt), v), leT(v, IntLit(new(big.Int).Sub(new(big.Int).Lsh(big.NewInt(1), 64), big.NewInt(1)), SInt))), "strconv.ParseUint: a 64-bit value")
+		is := vc.IfaceSort()
+		e := vc.Declare(f.prefix+"parse_err", is)
+		vc.Assume(Eq(Eq(e, Atom(is.Alt, is)), ok), "strconv.ParseUint: the error is nil exactly when the string is a number in range")
+		f.ex.vc.assumeNote("strconv.ParseUint with base 10, 64 bits: uninterpreted function of the string")
+		return []Val{{T: v}, {T: e}}
 	}
 }
